@@ -120,6 +120,8 @@ def binop(eng, op, a, b):
         return SV(TStr, eng.fresh(TStr, 'fmt'))
     if isinstance(a, str) and isinstance(b, int) and op == 'Mult':
         return a * b
+    if isinstance(a, ConcreteList) and isinstance(b, int) and not isinstance(b, bool) and op == 'Mult':
+        return ConcreteList(list(a) * b)
     if isinstance(a, str) and len(a) == 1 and isinstance(b, SV) and b.ty == TInt and op == 'Mult':
         # c * n: n copies of the character c (empty for n <= 0)
         f = z3.Function('repeat_c', z3.IntSort(), z3.IntSort(), TCStr.sort())
@@ -179,6 +181,9 @@ def binop(eng, op, a, b):
         if _is_real(x) or _is_real(y):
             raise EngineError('floor division of reals')
         xi, yi = _int(x), _int(y)
+        if (isinstance(y, int) and y > 0) or eng.check_light(yi <= 0) == z3.unsat:
+            # a positive divisor: Python's // and % coincide with SMT-LIB's div and mod
+            return eng.numval(xi / yi if op == 'FloorDiv' else xi % yi)
         q = py_floordiv(xi, yi)
         return eng.numval(q if op == 'FloorDiv' else xi - yi * q)
     if op == 'Pow':
@@ -388,6 +393,8 @@ def contains(eng, c, x):
         if src is not None:
             return contains(eng, src, x)
         raise EngineError('membership in iterator')
+    if isinstance(c, Obj) and '__contains__' in c.attrs:
+        return eng.truth(eng.call(c.attrs['__contains__'], [x], {}))
     if isinstance(c, Obj) and 'contains' in c.__dict__:
         return contains(eng, c.__dict__['contains'], x)
     if isinstance(c, Box) and c.cd is not None:
@@ -483,7 +490,21 @@ def getattr_value(eng, v, attr):
     m = eng.methods.get((kind, attr))
     if m is not None:
         return Builtin(lambda e, *a, **k: m(e, v, *a, **k), '%s.%s' % (kind, attr))
+    py = _PY_ATTRS.get(kind)
+    if py is not None and attr not in py and not eng.spec:
+        # no Python value this kind stands for has such an attribute
+        raise PyExc('AttributeError', (attr,), eng.line)
     raise EngineError('attribute %s of %s value' % (attr, kind))
+
+
+import collections as _collections
+_PY_ATTRS = {
+    'list': set(dir(list)) | set(dir(tuple)) | set(dir(_collections.deque)),
+    'clist': set(dir(list)), 'tuple': set(dir(tuple)),
+    'dict': set(dir(dict)) | set(dir(_collections.OrderedDict)) | set(dir(_collections.defaultdict)),
+    'cdict': set(dir(dict)), 'set': set(dir(set)) | set(dir(frozenset)),
+    'str': set(dir(str)), 'cstr': set(dir(str)), 'Int': set(dir(int)), 'Bool': set(dir(bool)), 'Real': set(dir(float)),
+}
 
 
 def value_kind(v):
@@ -813,7 +834,37 @@ class OneShot:
         self.seq, self.consumed = seq, False
 
 
+class _Any:
+    """use_lemma(name, ..., ANY, ...): the lemma for every value of that parameter"""
+
+    def __repr__(self):
+        return 'ANY'
+
+
+ANY = _Any()
+
+
+class StatefulIter:
+    """the value of iter(x): a position in the traversal of x.  next() advances it; a traversal (for, comprehension,
+    all/any/list...) takes the remaining elements, after which the iterator may not be used again (a traversal may stop
+    early, so what is left is unknown: out of reach)."""
+
+    def __init__(self, base):
+        self.base, self.pos, self.dead = base, 0, False
+
+
 def make_iter(eng, v):
+    if isinstance(v, StatefulIter):
+        if v.dead:
+            raise EngineError('iterator used again after a traversal')
+        v.dead = True
+        base, pos = v.base, v.pos
+        if base.concrete is not None and isinstance(pos, int):
+            return IterV(len(base.concrete) - pos, None, concrete=list(base.concrete[pos:]))
+        if isinstance(pos, int) and pos == 0:
+            return base
+        it = IterV(_simp_n(_int(base.n) - _int(pos)), lambda i: base.get(_int(i) + _int(pos)))
+        return it
     if isinstance(v, OneShot):
         if v.consumed:
             return IterV(0, None, concrete=[])
@@ -1231,6 +1282,22 @@ def b_sum(eng, x, start=0):
         for e in it.concrete:
             acc = binop(eng, 'Add', acc, e)
         return acc
+    # sum(s) of a symbolic list of integers: the contract's prefix-sum spec function PS(s, i) (convention), at i = len(s)
+    src = getattr(it, 'src', None)
+    ps = None
+    try:
+        ps = eng.spec_fallback.lookup('PS') if getattr(eng, 'spec_fallback', None) is not None else None
+    except KeyError:
+        ps = None
+    if ps is not None and src is not None and type_of(src) == TSeq(TInt) and start == 0:
+        return eng.call(ps, [src, b_len(eng, src)], {})
+    if src is not None and type_of(src) == TSeq(TReal) and start == 0:
+        try:
+            sw = eng.spec_fallback.lookup('SW')      # same convention for lists of reals: SW(w, i)
+        except (KeyError, AttributeError):
+            sw = None
+        if sw is not None:
+            return eng.call(sw, [src, b_len(eng, src)], {})
     raise EngineError('sum over a symbolic sequence (use a prefix-sum spec function)')
 
 
@@ -1752,9 +1819,21 @@ def filtered_iter(eng, it, g, env, elem):
     if name is None:
         eng.fresh_n += 1
         name = 'filt%d' % eng.fresh_n
-    ix = eng.uf(name + '_ix', [TInt], TInt)
-    rk = eng.uf(name + '_rk', [TInt], TInt)
-    L = z3.Int(name + '_len')
+    if isinstance(name, tuple):
+        # (name, context variable): one index map per value of the context (e.g. per element of an enclosing loop):
+        # <name>_ix(ctx, k), <name>_rk(ctx, i), <name>_len(ctx)
+        name, ctxvar = name
+        cv = env.lookup(ctxvar)
+        cv = cv.__dict__['ctx_key'] if isinstance(cv, Obj) and 'ctx_key' in cv.__dict__ else cv
+        cty = type_of(cv)
+        ce = to_z3(cv, cty)
+        ix_, rk_, L_ = (eng.uf(name + '_ix', [cty, TInt], TInt), eng.uf(name + '_rk', [cty, TInt], TInt),
+                        eng.uf(name + '_len', [cty], TInt))
+        ix, rk, L = (lambda a: ix_(ce, a)), (lambda a: rk_(ce, a)), L_(ce)
+    else:
+        ix = eng.uf(name + '_ix', [TInt], TInt)
+        rk = eng.uf(name + '_rk', [TInt], TInt)
+        L = z3.Int(name + '_len')
     n = _int(it.n)
 
     def p(i):
@@ -1870,9 +1949,27 @@ def install(eng):
     reg('hasattr', b_hasattr)
     reg('sorted', b_sorted)
     reg('print', lambda e, *a, **k: None)
-    reg('iter', lambda e, x: make_iter(e, x))
+    reg('iter', lambda e, x: x if isinstance(x, StatefulIter) else StatefulIter(make_iter(e, x)))
 
     def b_next(e, it, *default):
+        if isinstance(it, StatefulIter):
+            if it.dead:
+                raise EngineError('iterator used again after a traversal')
+            base = it.base
+            if base.concrete is not None:
+                if it.pos < len(base.concrete):
+                    it.pos += 1
+                    return base.concrete[it.pos - 1]
+                if default:
+                    return default[0]
+                e.maybe_raise(False, 'StopIteration')
+            if e.branch(_int(base.n) > _int(it.pos)):
+                x = base.get(_int(it.pos))
+                it.pos = it.pos + 1 if isinstance(it.pos, int) else z3.simplify(it.pos + 1)
+                return x
+            if default:
+                return default[0]
+            e.maybe_raise(False, 'StopIteration')
         it = make_iter(e, it)
         if it.concrete is not None:
             if it.concrete:
@@ -1923,6 +2020,7 @@ def install(eng):
             raise EngineError('unknown lemma %s' % name)
         lem.apply(e, args)
     reg('use_lemma', use_lemma)
+    B['ANY'] = ANY
     reg('keyat', lambda e, m, i: wrap(type_of(m).k, type_of(m).key_at(to_z3(m), _int(e.num(i)))))
     reg('posof', lambda e, m, k: wrap(TInt, z3.Select(type_of(m).pos(to_z3(m)), to_z3(k, type_of(m).k))))
     B['TInt'], B['TStr'], B['TBool'], B['TReal'] = TInt, TStr, TBool, TReal
@@ -2002,10 +2100,16 @@ def install(eng):
             return abs(v)
         return e.numval(z3.If(v >= 0, v, -v))
 
+    def np_all(e, x):
+        # numpy.all of a scalar truth value is that value
+        if isinstance(x, bool) or (isinstance(x, SV) and x.ty == TBool) or z3.is_bool(x):
+            return x
+        raise EngineError('numpy.all of a non-scalar')
+
     def np_fill_diagonal(e, arr, v):
         arr.e = z3.If(arr.diag, _real(e.num(v)), arr.e)
     EXTERNAL_MODULES['numpy'] = ModuleV('numpy', dict(sign=Builtin(np_sign, 'numpy.sign'), exp=Builtin(np_exp, 'numpy.exp'),
-                                                      abs=Builtin(np_abs, 'numpy.abs'), absolute=Builtin(np_abs, 'numpy.absolute'),
+                                                      abs=Builtin(np_abs, 'numpy.abs'), all=Builtin(np_all, 'numpy.all'), absolute=Builtin(np_abs, 'numpy.absolute'),
                                                       fill_diagonal=Builtin(np_fill_diagonal, 'numpy.fill_diagonal')))
     def namedtuple(e, name, fields):
         names = fields.split() if isinstance(fields, str) else list(e.concrete_list(fields))
